@@ -186,7 +186,7 @@ PROPS = {
                   "Orbit.C20.each_change_reported_once", "Orbit.C20.own_messages_filtered", "Orbit.C20.channel_name_symmetric",
                   "Orbit.C20.channel_name_identifies_pair", "Orbit.C20.frame_roundtrip", "Orbit.C20.length_prefix_roundtrip",
                   "Orbit.C20.oversize_refused", "Orbit.C20.accepted_length_within_limit", "Orbit.C20.tied_to_go_text",
-                  "Orbit.C20.every_watcher_is_told_about_present_peers", "Orbit.C20.shared_membership_hid_present_peers_from_a_later_watcher", "Orbit.C20.each_peer_is_subscribed_once", "Orbit.C20.connect_order_tied_to_go_text", "Orbit.C20.a_lock_released_around_subscribe_would_deliver_twice", "Orbit.C20.watcher_closes_its_subscription_tied_to_go_text", "Orbit.C20.pairwise_channel_hands_on_only_what_its_target_sent", "Orbit.C20.third_party_payload_was_attributed_to_the_target_before_the_fix", "Orbit.C20.sender_test_tied_to_go_text"],
+                  "Orbit.C20.every_watcher_is_told_about_present_peers", "Orbit.C20.shared_membership_hid_present_peers_from_a_later_watcher", "Orbit.C20.each_peer_is_subscribed_once", "Orbit.C20.connect_order_tied_to_go_text", "Orbit.C20.a_lock_released_around_subscribe_would_deliver_twice", "Orbit.C20.watcher_closes_its_subscription_tied_to_go_text", "Orbit.C20.pairwise_channel_hands_on_only_what_its_target_sent", "Orbit.C20.third_party_payload_was_attributed_to_the_target_before_the_fix", "Orbit.C20.sender_test_tied_to_go_text", "Orbit.C20.pairwise_channel_outlives_its_first_caller_tied_to_go_text"],
         families=[("transport", 100, 4000, 8), ("oneonone", 3, 40, 1)],
         corr_fields={"tevents"},
         nontrivial=lambda lines: sum(1 for l in lines if l.startswith("op tpeers") and ";" in l) >= 1 or any(l.startswith("op tone") for l in lines),
@@ -325,7 +325,7 @@ MANIFEST_TEXT = {
         note="The bytes -> structure step of encoding/json / CBOR is observed, not modelled (partial there); trusted: Lean kernel + standard axioms, the extractor, the hand-written decode model validated by the garbage family.",
         technique="Lean 4 proof (total outcome functions with explicit panic; BitVec frame guard tied by translator) with crash-attributing differential harness"),
     "C20": dict(
-        text="Kernel-checked theorems: peersDiff reports exactly new\\old and old\\new; for every snapshot sequence the reported changes replay to the last snapshot and each change is reported once; own messages are filtered and every remote payload delivered once in order; the pairwise channel name is symmetric and identifies the pair; uvarint and frame round-trip for every payload up to the limit; oversized frames are refused; limit and guard tied to the Go text. The real pubsubcoreapi, oneonone and directchannel code is driven over scripted pubsub/host fakes and compared with the model line by line; in a third of the membership scripts a SECOND watcher of the same topic starts after the first ended (a store closed and opened again): it must be told about the peers that are there (finding F24, fix: commit; decide-checked witness for the old shared list). The routes and reload families additionally run a third of their scenarios with the stores subscribed through the real pubsubcoreapi adapter over the scripted network. The pairwise channel hands on exactly what its target sent, attributed to it, for every sequence of messages by anybody on the pairwise topic (proved; finding F40, fix: commit - only the end's own messages used to be dropped and a third peer's payload was attributed to the target: decide-checked witness, replayed on the real adapter; the sender test is regenerated from the Go text on every run).",
+        text="Kernel-checked theorems: peersDiff reports exactly new\\old and old\\new; for every snapshot sequence the reported changes replay to the last snapshot and each change is reported once; own messages are filtered and every remote payload delivered once in order; the pairwise channel name is symmetric and identifies the pair; uvarint and frame round-trip for every payload up to the limit; oversized frames are refused; limit and guard tied to the Go text. The real pubsubcoreapi, oneonone and directchannel code is driven over scripted pubsub/host fakes and compared with the model line by line; in a third of the membership scripts a SECOND watcher of the same topic starts after the first ended (a store closed and opened again): it must be told about the peers that are there (finding F24, fix: commit; decide-checked witness for the old shared list). The routes and reload families additionally run a third of their scenarios with the stores subscribed through the real pubsubcoreapi adapter over the scripted network. The pairwise channel hands on exactly what its target sent, attributed to it, for every sequence of messages by anybody on the pairwise topic (proved; finding F40, fix: commit - only the end's own messages used to be dropped and a third peer's payload was attributed to the target: decide-checked witness, replayed on the real adapter; the sender test is regenerated from the Go text on every run). The pairwise channel outlives the caller that connected first (finding F50, fix: commit - it died with the first store's context: payloads silently lost for the instance's other stores; two callers with separate contexts in the oneonone family; the channel context and the closing of the subscription are regenerated from the Go text).",
         note="Partial: delivery over real libp2p streams/pubsub is runtime behaviour replaced by fakes; the pubsubraw adapter is not exercised. Exactly-once assumes duplicate-free snapshots (stated in the theorem).",
         technique="Lean 4 proof (list/bit-vector lemmas; translator for the frame guard) with differential correspondence over scripted transports"),
     "C03": dict(
